@@ -63,6 +63,8 @@ def reverify(ids):
     try:
         for sid in ids:
             d = os.path.join(ROOT, "seeded", sid)
+            if json.load(open(os.path.join(d, "meta.json"))).get("superseded"):
+                print(sid, "superseded (see meta.json): skipped"); continue
             rc, out = sh("git apply %s" % os.path.join(d, "patch.diff"), cwd=wt)
             if rc != 0:
                 print(sid, "patch does not apply", out); continue
@@ -115,6 +117,8 @@ def readme():
         sid = os.path.basename(os.path.dirname(d))
         last = m.get("runs", [{}])[-1].get("results", {})
         how = "; ".join(f"{p}: {v['line'].replace('VIOLATION ', '') if v['detected'] else 'not reported'}" for p, v in last.items())
+        if m.get("superseded"):
+            how = "superseded: " + m["superseded"][:160]
         rows.append(f"| {sid} | {m['property']} | {m['summary'][:160]} | {m.get('needs','')[:160]} | {', '.join(m.get('detected_by', [])) or '—'} | {how[:200]} |")
     with open(os.path.join(ROOT, "seeded", "README.md"), "w") as f:
         f.write("# Seeded changes\n\nEach directory holds `patch.diff` (a change to chihaya that breaks one property while compiling and passing the existing suite), "
